@@ -20,7 +20,7 @@ RULE = (
     "non-trivial = >=2 plates of unequal sizes or >=4 thetas"
 )
 ASSUMPTIONS = ["means bounded by a few hundred (up to 2**20 when they lie on a binary grid on which every difference is exact) so squares stay finite", "scalar reference uses math.fsum and a stable log-sum-exp"]
-REQUIRED = {"work_array_scale_runs": {"quick": 1, "thorough": 1}, "configs_with_more_than_5000_triples": {"quick": 10, "thorough": 200}, "cli_end_to_end_runs": {"quick": 5, "thorough": 50}, "scorer_runs_on_overlapping_views": {"quick": 10, "thorough": 150}, "production_size_plates": {"quick": 40, "thorough": 800}, "plate_scores_vs_reference": {"quick": 10000, "thorough": 200000}, "metamorphic_checks": {"quick": 10000, "thorough": 200000}, "scorer_entry_runs": {"quick": 800, "thorough": 15000}, "all_zero_distance_cases": {"quick": 10, "thorough": 200}}
+REQUIRED = {"scores_by_a_long_lived_scorer_object": {"quick": 300, "thorough": 5000}, "work_array_scale_runs": {"quick": 1, "thorough": 1}, "configs_with_more_than_5000_triples": {"quick": 10, "thorough": 200}, "cli_end_to_end_runs": {"quick": 5, "thorough": 50}, "scorer_runs_on_overlapping_views": {"quick": 10, "thorough": 150}, "production_size_plates": {"quick": 40, "thorough": 800}, "plate_scores_vs_reference": {"quick": 10000, "thorough": 200000}, "metamorphic_checks": {"quick": 10000, "thorough": 200000}, "scorer_entry_runs": {"quick": 800, "thorough": 15000}, "all_zero_distance_cases": {"quick": 10, "thorough": 200}}
 N_CFG = {"quick": 960, "thorough": 16000}
 TOL = 1e-9
 
@@ -358,6 +358,19 @@ def run_shard(rec, tier, seed, shard, nshards):
                     rec.check(same(got[pid], ref[p]), "C05/scorer/differs-from-direct-estimator", lambda: "scorer(max_chunk=%d, %s): plate %d (size %d of %r) scored %r, direct evaluation gives %r" % (mc, "hetero" if hetero_mode else "homo", p, sizes[p], sizes, got[pid], ref[p]), w)
                 if base is None:
                     base = got
+            # one scorer object that lives as long as the shard (a service scoring one data set after another, with
+            # few posterior samples today and more tomorrow): its configured budget still covers every triple
+            if comb(T, 3) <= 6000:
+                vet = run_shard.__dict__.setdefault("veteran_%d" % shard, G.GaussianDBALScorer(max_chunk=50, max_triples=6000))
+                try:
+                    resv = vet.score(plates=plates, distance_matrix=cdm, samples=holder, rng=grng(), progress_bar=False)
+                    rec.count("scores_by_a_long_lived_scorer_object")
+                    for p in range(P):
+                        pid = name_to_id["p%02d" % p]
+                        rec.count("plate_scores_vs_reference")
+                        rec.check(pid in resv and same(float(resv[pid]), ref[p]), "C05/scorer/differs-from-direct-estimator", lambda: "a scorer object used on earlier data sets (budget 6000 >= C(%d,3)): plate %d scored %r, direct evaluation gives %r" % (T, p, resv.get(pid), ref[p]), w)
+                except Exception as e:
+                    rec.violation("C05/scorer/raises", "a long-lived scorer object raised %r" % (e,), w)
                 else:
                     for pid in got:
                         rec.count("metamorphic_checks")
